@@ -5,6 +5,7 @@ import sys
 import time
 from copy import deepcopy
 import networkx as nx
+import numpy as np
 from bounded.common import args, finish, mesh, design, equipment, TOPOLOGIES, fiber, edfa
 
 a = args()
@@ -16,6 +17,7 @@ from gnpy.core.info import create_input_spectral_information
 from gnpy.tools.json_io import network_from_json
 
 t0 = time.time()
+FPROBE = np.array([186.0e12, 191.0e12, 193.5e12, 196.0e12])
 wit = []
 cases = 0
 
@@ -39,7 +41,8 @@ def check(topo, eqpt, key, junction):
     total_len = {}
     for f in before.nodes():
         if isinstance(f, Fiber):
-            total_len[f.uid.split('_(')[0]] = (f.params.length, float(f.loss))
+            total_len[f.uid.split('_(')[0]] = (f.params.length, float(f.loss), f.loss_coef_func(FPROBE) * f.params.length,
+                                               f.chromatic_dispersion(FPROBE))
     net, eqpt = design(topo, deepcopy(eqpt))
     prob = []
     span = eqpt['Span']['default']
@@ -49,6 +52,7 @@ def check(topo, eqpt, key, junction):
     if roadm_reach(net) != reach0:
         prob.append('ROADM reachability changed')
     parts = {}
+    table = {}
     for n in net.nodes():
         if isinstance(n, (Roadm, Transceiver)):
             continue
@@ -70,6 +74,7 @@ def check(topo, eqpt, key, junction):
                 prob.append(f'{n.uid}: span longer than max_length')
             base = n.uid.split('_(')[0]
             parts.setdefault(base, []).append(n.params.length)
+            table.setdefault(base, []).append((n.loss_coef_func(FPROBE) * n.params.length, n.chromatic_dispersion(FPROBE)))
             if isinstance(nxt, Fiber):
                 prob.append(f'{n.uid}: fibre-to-fibre junction left without amplifier')
             if isinstance(nxt, Roadm) and not isinstance(n, RamanFiber) and False:
@@ -89,6 +94,12 @@ def check(topo, eqpt, key, junction):
             L = total_len[base][0]
             if abs(sum(lens) - L) > 1e-6 * max(1, L) or max(lens) - min(lens) > 1e-6 * max(1, L):
                 prob.append(f'{base}: split spans {lens} do not add up equally to {L}')
+            # ... and to the original loss and accumulated dispersion, at every probed frequency (per-frequency tables included)
+            for k, what in ((0, 'loss'), (1, 'dispersion')):
+                tot = sum(t[k] for t in table[base])
+                ref = total_len[base][2 + k]
+                if not np.allclose(tot, ref, rtol=1e-9, atol=1e-12):
+                    prob.append(f'{base}: split spans have {what} {np.round(tot, 6).tolist()} at {FPROBE.tolist()} Hz, the fibre had {np.round(ref, 6).tolist()}')
     if POWERS and not prob:
         # C09: each amplifier gain = loss since the previous amplifier + change of target (reference channel leaves at
         # pref + offset); checked on the design values along every OMS
@@ -140,6 +151,24 @@ for name in names:
                     check(topo, eq, key, junction)
                 except Exception as e:
                     wit.append({'key': key, 'problems': [f'{type(e).__name__}: {e}']})
+# long fibres described by per-frequency tables (loss, dispersion): the split spans must carry the same tables
+PERFREQ = {'loss': {'loss_coef': {'value': [0.19, 0.2, 0.21, 0.24], 'frequency': [186e12, 191e12, 193.5e12, 197e12]}},
+           'dispersion': {'dispersion_per_frequency': {'value': [1.4e-5, 1.6e-5, 1.7e-5, 1.8e-5], 'frequency': [186e12, 191e12, 193.5e12, 197e12]}}}
+PERFREQ['both'] = {**PERFREQ['loss'], **PERFREQ['dispersion']}
+for name in (['line2'] if a.tier == 'quick' else ['line2', 'ring3']):
+    sites, links = TOPOLOGIES[name]
+    for sp in ([200], [40, 170]):
+        for which, extra in PERFREQ.items():
+            cases += 1
+            key = f'{name}:{sp}:per-frequency-{which}'
+            try:
+                topo = mesh(sites, links, spans={l: sp for l in links})
+                for e in topo['elements']:
+                    if e['type'] == 'Fiber':
+                        e['params'].update(deepcopy(extra))
+                check(topo, equipment(), key, 'none')
+            except Exception as e:
+                wit.append({'key': key, 'problems': [f'{type(e).__name__}: {e}']})
 # a Raman span whose connector losses are left to the library defaults (its booster carries a delta_p: see known finding F24)
 for con_in, con_out in ((None, 0.5), (0.35, 0.5)):
     cases += 1
@@ -218,5 +247,5 @@ for name in (['line2', 'ring3'] if a.tier == 'quick' else ['line2', 'line3', 'ri
             wit.append({'key': key, 'problems': [f'{type(e).__name__}: {e}'[:300]]})
 finish('designed network is a complete line system' + (' with closed power budget' if POWERS else ''), 'bounded',
        'gnpy.tools.worker_utils.designed_network (build_network, add_missing_elements_in_network)',
-       f'topologies {names} x spans {span_sets} km x junction none/fused/edfa x power/gain mode, default eqpt_config.json (+ Span max_length 60 / 100 km on line2, ring3)',
+       f'topologies {names} x spans {span_sets} km x junction none/fused/edfa x power/gain mode, default eqpt_config.json (+ Span max_length 60 / 100 km on line2, ring3; + 200 km and 40+170 km fibres with per-frequency loss and dispersion tables)',
        cases, wit, t0=t0)
